@@ -90,6 +90,10 @@ impl PolicyModel {
     { unimplemented!() }
     #[verifier::external_body]
     pub fn remove(&mut self, k: &u64) ensures final(self).charges@ == old(self).charges@.remove(*k), final(self).last_add == old(self).last_add { unimplemented!() }                 // [pol.rm.map]
+    #[verifier::external_body]
+    pub fn contains(&self, k: &u64) -> (r: bool) ensures r == self.charged(*k) { unimplemented!() }                                                                                  // [pol.contains]
+    #[verifier::external_body]
+    pub fn cost(&self, k: &u64) -> (r: i64) ensures r == (if self.charged(*k) { self.charges@[*k] } else { -1i64 }) { unimplemented!() }                                             // [pol.cost]
 }
 
 /// the user's CacheCallback behind an Arc: every call is appended to a ghost log
@@ -211,11 +215,9 @@ impl<V> StoreModel<V> {
             forall|k: u64| #[trigger] old(self).view@.contains_key(k) && !final(self).view@.contains_key(k) ==> !final(policy).charges@.contains_key(k) && exists|i: int| 0 <= i < res.unwrap()@.len() && (#[trigger] res.unwrap()@[i]).index == k,
             forall|k: u64| #[trigger] final(policy).charges@.contains_key(k) ==> old(policy).charges@.contains_pair(k, final(policy).charges@[k]),
             forall|k: u64| #[trigger] old(policy).charges@.contains_key(k) && !final(policy).charges@.contains_key(k) ==> old(self).view@.contains_key(k),
-            // [cleanup.charge-released-only-with-its-entry] (keys told apart by their index hash)
-            old(self).no_index_collisions() ==> forall|k: u64| #[trigger] old(policy).charges@.contains_key(k) && !final(policy).charges@.contains_key(k) ==> !final(self).view@.contains_key(k),
+            // [cleanup.charge-released-only-with-its-entry]
+            forall|k: u64| #[trigger] old(policy).charges@.contains_key(k) && !final(policy).charges@.contains_key(k) ==> !final(self).view@.contains_key(k),
     { unimplemented!() }
-    /// "keys are told apart by their index hash": no stale expiry listing carries an incompatible conflict hash
-    pub uninterp spec fn no_index_collisions(&self) -> bool;
 }
 
 /// the unbounded `clear` signal channel to the processor
